@@ -83,6 +83,7 @@ func readAll(data []byte, sizes []int, tailErr bool, measure bool) (obs readObs,
 			runtime.GC()
 			runtime.ReadMemStats(&m0)
 		}
+		var held []*packet.TransferPacket
 		for {
 			p, _, err := sp.ReadPacket()
 			if err != nil {
@@ -90,6 +91,12 @@ func readAll(data []byte, sizes []int, tailErr bool, measure bool) (obs readObs,
 				obs.left = cr.Remaining()
 				break
 			}
+			// keep the decoded packets as the caller would and render them only after the
+			// whole stream has been read: a body must not change once ReadPacket returned it
+			held = append(held, p)
+			obs.n++
+		}
+		for _, p := range held {
 			var body []byte
 			if p.CommandPacket != nil {
 				body, _ = json.Marshal(p.CommandPacket)
@@ -97,7 +104,6 @@ func readAll(data []byte, sizes []int, tailErr bool, measure bool) (obs readObs,
 				body = p.Payload
 			}
 			obs.pkts = append(obs.pkts, strconv.Itoa(int(p.PacketType)), vc.Hex(body))
-			obs.n++
 		}
 		if measure {
 			runtime.ReadMemStats(&m1)
